@@ -247,7 +247,8 @@ def run_unit(unit_path, repo=None, twin=True):
     name = os.path.basename(unit_path)[:-3]
     res = {"unit": name, "status": "ok", "reason": None, "obligations": [], "wall_s": 0.0}
     t0 = time.time()
-    d = os.path.join(WORK, name)
+    # one directory per process: several checks (C08, C09, ...) weave the same unit and may run at the same time
+    d = os.path.join(WORK, "run.%d" % os.getpid(), name)
     os.makedirs(d, exist_ok=True)
     try:
         w = weave.expand(unit_path, twin=False, repo=repo)
@@ -277,7 +278,8 @@ def run_unit(unit_path, repo=None, twin=True):
     }
     res["assumed_contracts"] = assumed_contracts(text)
     cmd = ["verus", gen, "--multiple-errors", "50", "--output-json", "--time", "--", "--error-format=json"]
-    res["checker_cmd"] = " ".join(cmd)
+    # (the file is generated into a per-process directory and copied to .work/<unit>/ when the check ends)
+    res["checker_cmd"] = " ".join(cmd).replace(gen, os.path.join(WORK, name, name + ".rs"))
     procs = [(w, gen)]
     if twin:
         gent = os.path.join(d, name + "_twin.rs")
